@@ -71,14 +71,50 @@ func vfPair(wlo, whi int) vfObs {
 	return o
 }
 
-// vfPairNorm: the same pair for the models whose coefficients mix the three proportions (F84,
-// TN93): with a free total weight the division by the symbolic total makes the solver time out
-// (measured), so here the weights of the selected sites are constrained to sum to `total`: the
-// proportions range over the grid of multiples of 1/(2*total) of the simplex (faces included
-// through the unselected sites). Pairs without comparable site: H_C07_est_nocomparable.
+// vfPairNorm: the same pair with a total weight that is constant BY CONSTRUCTION, for the models
+// whose coefficients mix the three proportions (K80, F84, TN93). With a free total the division by
+// the symbolic total makes the solver time out (measured), and a mere assume(total == c) is
+// not propagated into the divisions. So: the subset of selected sites is enumerated (15
+// non-empty subsets, concrete), every selected site but the first has a free positive dyadic
+// weight k/2, and the first selected site takes the remainder total - (sum of the others),
+// assumed >= 1/2. The weights are still arbitrary positive multiples of 1/2 with sum `total`:
+// the proportions range over the grid of multiples of 1/(2*total) of the simplex, its faces
+// included through the unselected sites. Pairs without comparable site: H_C07_est_nocomparable.
 func vfPairNorm(total int) vfObs {
-	o := vfPair(1, 2*total)
-	assume(o.tot == float64(total))
+	var o vfObs
+	o.s1 = []uint8{vfA, vfA, vfC, vfA}
+	o.s2 = []uint8{vfA, vfG, vfT, vfC}
+	o.sel = make([]bool, 4)
+	o.w = make([]float64, 4)
+	subset := nondetRange(1, 15)
+	first := -1
+	others := 0.0
+	for i := 0; i < 4; i++ {
+		o.sel[i] = subset&(1<<uint(i)) != 0
+		o.w[i] = nondetDyadic(2, 1, 2*total)
+		if o.sel[i] {
+			if first < 0 {
+				first = i
+			} else {
+				others += o.w[i]
+			}
+		}
+	}
+	o.w[first] = float64(total) - others
+	assume(o.w[first] >= 0.5)
+	var n [4]float64
+	for i := 0; i < 4; i++ {
+		if o.sel[i] {
+			n[i] = o.w[i]
+		}
+	}
+	T := float64(total)
+	o.tot = T
+	o.p1 = n[1] / T
+	o.p2 = n[2] / T
+	o.q = n[3] / T
+	o.p = (n[1] + n[2] + n[3]) / T
+	o.anydiff = n[1]+n[2]+n[3] > 0
 	return o
 }
 
@@ -88,23 +124,6 @@ func vfNegLog(x float64, gamma bool, alpha float64) float64 {
 		return alpha * (math.Pow(x, -1/alpha) - 1)
 	}
 	return -math.Log(x)
-}
-
-// vfPowGuard: ENGINE LIMITATION. gosym cannot evaluate math.Pow(negative base, integer exponent)
-// ("unsupported: math.Pow of negative base with integer exponent"). With alpha = 1/2, 1, 1/4 the
-// exponent -1/alpha is an integer, so for these alphas the saturated region with a negative
-// argument is excluded; it is covered at the alphas whose exponent is not an integer (2, 7/3, 5).
-func vfPowGuard(gamma bool, alpha float64, xs ...float64) {
-	if !gamma {
-		return
-	}
-	e := -1 / alpha
-	if e != math.Trunc(e) {
-		return
-	}
-	for _, x := range xs {
-		assume(!(x < 0))
-	}
 }
 
 func vfGe(a, b float64) bool {
@@ -119,13 +138,26 @@ func vfGe(a, b float64) bool {
 // site and every argument of ln / x^(-1/alpha) is positive.
 // (Written as implications, not branches: every branch on a symbolic condition costs solver
 // queries, and the engine keeps the ln/pow axioms of every path it has seen.)
-func vfJudge(o vfObs, d float64, err error, ref float64, defined bool) {
+func vfJudge(o vfObs, d float64, err error, ref float64, defined bool, gamma bool, alpha float64) {
 	verifAssert(err == nil, "no error")
 	comparable := o.tot > 0
 	verifAssert(!(comparable && !o.anydiff) || d == 0, "no counted difference => distance 0")
 	verifAssert(!defined || vfClose(d, ref), "distance equals the published closed form")
-	verifAssert(!defined || (vfFinite(d) && vfGe(d, o.p)), "corrected distance is finite and >= the observed proportion of differing sites")
-	verifAssert(!(comparable && !defined) || !(vfFinite(d) && d >= 0 && d <= o.p), "saturated pair (argument of ln <= 0) is not reported as a finite distance in [0, observed proportion]")
+	verifAssert(!defined || vfFinite(d), "defined estimator is finite")
+	// d >= p is a consequence of ln x <= x-1 resp. Bernoulli's inequality (axioms of the
+	// uninterpreted ln/pow). For alpha = 1/2, 1, 1/4 the engine computes x^(-1/alpha) exactly
+	// (integer exponent) and the inequality becomes a nonlinear real problem on which the solver
+	// gives up (measured: unknown); there it follows from the proved equality with the closed form.
+	if !(gamma && -1/alpha == math.Trunc(-1/alpha)) {
+		verifAssert(!defined || vfGe(d, o.p), "corrected distance is >= the observed proportion of differing sites")
+	}
+	intexp := gamma && -1/alpha == math.Trunc(-1/alpha)
+	if !intexp {
+		// (with an integer exponent this is a nonlinear inequality the solver gives up on; the
+		// stronger assertion below is decided and implies it when it holds)
+		verifAssert(!(comparable && !defined) || !(vfFinite(d) && d >= 0 && d <= o.p), "saturated pair (argument of ln <= 0) is not reported as a finite distance in [0, observed proportion]")
+	}
+	verifAssert(!(comparable && !defined) || !(vfFinite(d) && d >= 0), "saturated pair is reported as undefined (NaN, +-Inf, or a negative value that DistMatrix replaces), not as a finite non-negative distance")
 	verifAssert(comparable || !(vfFinite(d) && d >= 0), "pair without comparable site is not reported as a finite non-negative distance")
 	// vacuity guards
 	if defined {
@@ -156,12 +188,11 @@ func vfEstJC(alphas []float64, o vfObs) {
 	gamma, alpha := vfGammaAlpha(alphas)
 	// JC69: d = -3/4 ln(1 - 4p/3)
 	x := 1 - 4*o.p/3
-	vfPowGuard(gamma, alpha, x)
 	ref := 0.75 * vfNegLog(x, gamma, alpha)
 	m := &JCModel{selectedSites: o.sel, gamma: gamma, alpha: alpha}
 	d, err := m.Distance(o.s1, o.s2, o.w)
 	verifReach("called")
-	vfJudge(o, d, err, ref, o.tot > 0 && x > 0)
+	vfJudge(o, d, err, ref, o.tot > 0 && x > 0, gamma, alpha)
 }
 
 // H_C07_est_jc: JCModel.Distance equals -3/4 ln(1-4p/3) (gamma: 3/4 a((1-4p/3)^(-1/a)-1)); zero without differences; >= p; undefined never reported as a small finite value.
@@ -187,19 +218,18 @@ func vfEstK2P(alphas []float64, o vfObs) {
 	P := o.p1 + o.p2
 	x1 := 1 - 2*P - o.q
 	x2 := 1 - 2*o.q
-	vfPowGuard(gamma, alpha, x1, x2)
 	ref := 0.5*vfNegLog(x1, gamma, alpha) + 0.25*vfNegLog(x2, gamma, alpha)
 	m := &K2PModel{selectedSites: o.sel, gamma: gamma, alpha: alpha}
 	d, err := m.Distance(o.s1, o.s2, o.w)
 	verifReach("called")
-	vfJudge(o, d, err, ref, o.tot > 0 && x1 > 0 && x2 > 0)
+	vfJudge(o, d, err, ref, o.tot > 0 && x1 > 0 && x2 > 0, gamma, alpha)
 }
 
 // H_C07_est_k2p: K2PModel.Distance equals -1/2 ln(1-2P-Q) - 1/4 ln(1-2Q) and its gamma variant.
 // bounds: the 4-kind pair, each site selected or not, weights dyadic k/2 (k=1..8); plain and gamma with alpha in {1/2, 1, 2}
 // outside: other alpha (thorough twin), weights off the grid; IEEE rounding is outside the claim: floats are exact reals; ln/pow uninterpreted (DESIGN.md §2.4)
 func H_C07_est_k2p() {
-	vfEstK2P(vfAlphas, vfPair(1, 8))
+	vfEstK2P(vfAlphas, vfPairNorm(8))
 }
 
 // H_C07_est_k2p_deep: as H_C07_est_k2p at more alphas and a finer weight grid.
@@ -218,12 +248,11 @@ func vfEstF81(pts []vfFreq, alphas []float64, o vfObs) {
 	// F81: d = -B ln(1 - p/B), B = 1 - sum pi^2
 	B := 1 - (f.a*f.a + f.c*f.c + f.g*f.g + f.t*f.t)
 	x := 1 - o.p/B
-	vfPowGuard(gamma, alpha, x)
 	ref := B * vfNegLog(x, gamma, alpha)
 	m := &F81Model{pi: []float64{f.a, f.c, f.g, f.t}, b1: B, selectedSites: o.sel, gamma: gamma, alpha: alpha}
 	d, err := m.Distance(o.s1, o.s2, o.w)
 	verifReach("called")
-	vfJudge(o, d, err, ref, o.tot > 0 && x > 0)
+	vfJudge(o, d, err, ref, o.tot > 0 && x > 0, gamma, alpha)
 }
 
 // H_C07_est_f81: F81Model.Distance equals -B ln(1-p/B), B = 1 - sum pi^2, and its gamma variant.
@@ -256,12 +285,11 @@ func vfEstF84(pts []vfFreq, alphas []float64, o vfObs) {
 	P := o.p1 + o.p2
 	x1 := 1 - P/(2*A) - (A-B)*o.q/(2*A*C)
 	x2 := 1 - o.q/(2*C)
-	vfPowGuard(gamma, alpha, x1, x2)
 	ref := 2*A*vfNegLog(x1, gamma, alpha) - 2*(A-B-C)*vfNegLog(x2, gamma, alpha)
 	m := &F84Model{pi: []float64{f.a, f.c, f.g, f.t}, a: A, b: B, c: C, selectedSites: o.sel, gamma: gamma, alpha: alpha}
 	d, err := m.Distance(o.s1, o.s2, o.w)
 	verifReach("called")
-	vfJudge(o, d, err, ref, o.tot > 0 && x1 > 0 && x2 > 0)
+	vfJudge(o, d, err, ref, o.tot > 0 && x1 > 0 && x2 > 0, gamma, alpha)
 }
 
 // H_C07_est_f84: F84Model.Distance equals the Felsenstein-Churchill closed form and its gamma variant.
@@ -292,14 +320,13 @@ func vfEstTN93(pts []vfFreq, alphas []float64, o vfObs) {
 	x1 := 1 - piR*o.p1/(2*f.a*f.g) - o.q/(2*piR)
 	x2 := 1 - piY*o.p2/(2*f.c*f.t) - o.q/(2*piY)
 	x3 := 1 - o.q/(2*piR*piY)
-	vfPowGuard(gamma, alpha, x1, x2, x3)
 	ref := (2*f.a*f.g/piR)*vfNegLog(x1, gamma, alpha) +
 		(2*f.c*f.t/piY)*vfNegLog(x2, gamma, alpha) +
 		2*(piR*piY-f.a*f.g*piY/piR-f.c*f.t*piR/piY)*vfNegLog(x3, gamma, alpha)
 	m := &TN93Model{pi: []float64{f.a, f.c, f.g, f.t}, selectedSites: o.sel, gamma: gamma, alpha: alpha}
 	d, err := m.Distance(o.s1, o.s2, o.w)
 	verifReach("called")
-	vfJudge(o, d, err, ref, o.tot > 0 && x1 > 0 && x2 > 0 && x3 > 0)
+	vfJudge(o, d, err, ref, o.tot > 0 && x1 > 0 && x2 > 0 && x3 > 0, gamma, alpha)
 }
 
 // H_C07_est_tn93: TN93Model.Distance equals the Tamura-Nei closed form and its gamma variant.
@@ -315,4 +342,100 @@ func H_C07_est_tn93() {
 //verif: tier=thorough
 func H_C07_est_tn93_deep() {
 	vfEstTN93(vfFreqPtsThorough, vfAlphasThorough, vfPairNorm(20))
+}
+
+// ------------------------------------------------------------------------- no comparable site
+
+// H_C07_est_nocomparable: a pair without any comparable site (every site unselected or carrying a gap in one of the two rows) has an undefined corrected distance: never a finite non-negative value.
+// bounds: two encoded rows of L=2 symbolic codes 0..15, symbolic selectedSites, such that no selected site has two nucleotides; weights nil or dyadic k/2 (k=1..8); models JC, K2P, F81, F84, TN93 (frequencies (1/2,1/4,1/8,1/8)), plain and gamma alpha=2, and pdist
+// outside: L>2; IEEE rounding is outside the claim: floats are exact reals
+func H_C07_est_nocomparable() {
+	L := 2
+	s1, s2 := vfCodes(L), vfCodes(L)
+	sel := vfSelSym(L)
+	for i := 0; i < L; i++ {
+		assume(!sel[i] || s1[i] == 0 || s2[i] == 0)
+	}
+	w := vfWeights(L)
+	gamma, alpha := vfGammaAlpha([]float64{2})
+	f := vfFreqPts[1]
+	pi := []float64{f.a, f.c, f.g, f.t}
+	piR, piY := f.a+f.g, f.c+f.t
+	var m DistModel
+	switch nondetRange(0, 5) {
+	case 0:
+		m = &JCModel{selectedSites: sel, gamma: gamma, alpha: alpha}
+	case 1:
+		m = &K2PModel{selectedSites: sel, gamma: gamma, alpha: alpha}
+	case 2:
+		m = &F81Model{pi: pi, b1: 1 - (f.a*f.a + f.c*f.c + f.g*f.g + f.t*f.t), selectedSites: sel, gamma: gamma, alpha: alpha}
+	case 3:
+		m = &F84Model{pi: pi, a: f.a*f.g/piR + f.c*f.t/piY, b: f.a*f.g + f.c*f.t, c: piR * piY, selectedSites: sel, gamma: gamma, alpha: alpha}
+	case 4:
+		m = &TN93Model{pi: pi, selectedSites: sel, gamma: gamma, alpha: alpha}
+	default:
+		m = &PDistModel{selectedSites: sel}
+	}
+	d, err := m.Distance(s1, s2, w)
+	verifReach("called")
+	verifAssert(err == nil, "no error")
+	verifAssert(!(vfFinite(d) && d >= 0), "pair without comparable site is not reported as a finite non-negative distance")
+}
+
+// ------------------------------------------------------------------------------ pdist, rawdist
+
+func vfEstPdistRaw(L int) {
+	s1, s2 := vfCodes(L), vfCodes(L)
+	gapmode := nondetRange(0, 2) // --gap-mut: 0 gaps never count, 1 only internal gaps, 2 all gaps
+	var sel []bool
+	if gapmode == 1 {
+		// the internal-gap counter ignores selectedSites (H_C07_count_diffs_internal): that region
+		// is excluded here so that the rest of the claim is checked
+		sel = vfSelAll(L)
+	} else {
+		sel = vfSelSym(L)
+	}
+	w := vfWeights(L)
+	raw := nondetRange(0, 1) == 1
+	if raw {
+		m := NewRawDistModel(false)
+		verifAssert(m.SetCountGapMutations(gapmode) == nil, "gap mode accepted")
+		m.selectedSites = sel
+		d, err := m.Distance(s1, s2, w)
+		verifReach("raw")
+		rd, _ := vfRefDiffs(s1, s2, sel, w, gapmode, false)
+		verifAssert(err == nil && d == rd, "rawdist = weighted number of differing sites")
+		return
+	}
+	rmAmb := nondetBool()
+	m := NewPDistModel(false)
+	verifAssert(m.SetCountGapMutations(gapmode) == nil, "gap mode accepted")
+	m.SetRemoveAmbiguous(rmAmb)
+	m.selectedSites = sel
+	d, err := m.Distance(s1, s2, w)
+	verifReach("pdist")
+	rd, rt := vfRefDiffs(s1, s2, sel, w, gapmode, rmAmb)
+	verifAssert(err == nil, "no error")
+	if rt > 0 {
+		verifReach("pdist-defined")
+		verifAssert(vfClose(d*rt, rd), "pdist = differing sites / counted sites")
+		verifAssert(d >= 0 && d <= 1, "pdist is a proportion")
+	} else {
+		verifAssert(!(vfFinite(d) && d >= 0), "pdist without counted site is undefined")
+	}
+}
+
+// H_C07_est_pdist_raw: PDistModel/RawDistModel.Distance equal differing/counted sites resp. the number of differing sites, for the three --gap-mut modes (0 none, 1 internal, 2 all) and --rm-ambiguous.
+// bounds: two encoded rows of L<=3 symbolic codes 0..15; selectedSites symbolic (gap modes 0, 2) or all selected (gap mode 1); weights nil or dyadic k/2 (k=1..8); removeAmbiguous symbolic
+// outside: gap mode 1 with unselected sites (H_C07_count_diffs_internal), L>3 (thorough twin: 4); IEEE rounding is outside the claim: floats are exact reals
+func H_C07_est_pdist_raw() {
+	vfEstPdistRaw(nondetRange(1, 3))
+}
+
+// H_C07_est_pdist_raw_L4: as H_C07_est_pdist_raw with 4 sites.
+// bounds: L=4
+// outside: L>4; IEEE rounding is outside the claim: floats are exact reals
+//verif: tier=thorough
+func H_C07_est_pdist_raw_L4() {
+	vfEstPdistRaw(4)
 }
